@@ -134,6 +134,18 @@ theorem translated_split_eq_model (str junk : List Nat) (hnz : ∀ c ∈ str, c 
   obtain ⟨s', h1, h2⟩ := split_tok ⟨argv, opts, str ++ 0 :: junk⟩ str junk rfl hnz f hf base
   exact ⟨s', h1, splitCommandLine_spec str junk hnz, h2⟩
 
+/-- C20 for the TRANSLATED tokenizer: EVERY argument vector (NUL-free words, empty words, blanks, quotes, backslashes anywhere),
+    written with the universal rendering (`joinTerminated`: blank -> `" "`, quote -> `"\""`, empty word -> `""`, a blank behind every
+    word), is appended to `command` exactly, whatever stands behind the terminator and whatever `command` held before -/
+theorem translated_split_expresses_every_vector (ws : List Word) (junk : List Nat) (h : ∀ w ∈ ws, ∀ c ∈ w, c ≠ 0) (f : Nat)
+    (hf : (joinTerminated ws).length < f) (base : Gen.SS) (argv : List Buf) (opts : List Opt) :
+    ∃ s' : Gen.SS, Gen.split ⟨argv, opts, joinTerminated ws ++ 0 :: junk⟩ f base = some (.ret () s') ∧
+      s'.command = base.command ++ ws := by
+  obtain ⟨s', h1, _, h3⟩ := translated_split_eq_model (joinTerminated ws) junk (joinTerminated_nonul ws h) f hf base argv opts
+  refine ⟨s', h1, ?_⟩
+  rw [h3]
+  exact congrArg _ (tok_joinTerminated ws)
+
 -- a concrete run of the translated tokenizer: `a "b \"c\d"e  f` -> a, `b "c\de`, empty word, f
 example : (match Gen.split ⟨[], [], [97, 32, 34, 98, 32, 92, 34, 99, 92, 100, 34, 101, 32, 32, 102, 0]⟩ 16 Gen.SS.zero with
     | some (.ret _ s) => some s.command | _ => none) = some [[97], [98, 32, 34, 99, 92, 100, 101], [], [102]] := by decide
